@@ -689,6 +689,15 @@ try:
             raw = repr(rows).encode()
         out[fmt] = hashlib.sha256(raw).hexdigest()
         out[fmt + "_len"] = len(raw)
+    # the JSON writer under each of its options and under both together (what `rdump -J` builds)
+    for name, q in (("json_indent", "?indent=2"), ("json_nodesc", "?descriptors=false"),
+                    ("json_indent_nodesc", "?indent=2&descriptors=false")):
+        path = os.path.join(d, name + ".json")
+        w = RecordWriter("jsonfile://" + path + q)
+        for r in recs:
+            w.write(r)
+        w.flush(); w.close()
+        out[name] = hashlib.sha256(open(path, "rb").read()).hexdigest()
 finally:
     shutil.rmtree(d, ignore_errors=True)
 ts = [r.ts for r in recs]
@@ -743,7 +752,8 @@ def oracle(case, obs):
                 return f"writing under display setting {r['setting']} failed: {r['msg'][-160:]}"
         base = runs[0]
         for r in runs[1:]:
-            for key in ("binary", "json", "sqlite", "avro", "order", "eq", "lt", "hash", "rechash", "iso"):
+            for key in ("binary", "json", "json_indent", "json_nodesc", "json_indent_nodesc", "sqlite", "avro", "order", "eq",
+                        "lt", "hash", "rechash", "iso"):
                 if r[key] != base[key]:
                     return (f"{key} differs between display settings {base['setting']} and {r['setting']}: what is "
                             f"stored/compared depends on the display zone")
